@@ -315,3 +315,107 @@ Definition check_stage (c : string * option string) : bool :=
   | None, None => true
   | _, _ => false
   end.
+
+(* ---------------------------------------------------------------- the lexical reading of an archive *)
+(* where the members (and the files hard-link members are linked to) are created when no link is followed:
+   the normalised join of destination and name.  Proofs.v / Archive.v: for every archive the repaired check
+   accepts, [extract] (which does follow the links the archive brings) creates exactly these paths. *)
+Definition hard_lexical (d : list string) (ms : list member) : list (list string) :=
+  flat_map (fun m => match snd m with
+                     | KHard _ => match mtarget d m with Some tp => [snd tp] | None => [] end
+                     | _ => []
+                     end) ms.
+Definition extract_lexical (d : list string) (ms : list member) : list (list string) :=
+  (map (fun m => snd (mpath d m)) ms ++ hard_lexical d ms)%list.
+
+(* ---------------------------------------------------------------- what the deployment writes itself *)
+(* expandPackageToDirectory, after the manifest has been applied: os.makedirs(<instance>/conf) unless the
+   manifest has the key "conf", then shutil.copyfile(package file, <instance>/conf/<conf_file>) — a file
+   write, which follows a link also in the last component. *)
+Definition conf_file (dsl : bool) : string := if dsl then "dsl.yaml" else "flowir_package.yaml".
+
+(* the check added by the repair of F18d (in expandPackageToDirectory, after Manifest.validate): no link
+   target may be conf or the package file inside it:  os.path.normpath(target) in ("conf", "conf/<conf_file>") *)
+Definition conf_rule (dsl : bool) (man : list entry) : bool :=
+  forallb (fun e => negb (is_link e) ||
+                    negb (list_eqb (clean (fst e)) ["conf"] || list_eqb (clean (fst e)) ["conf"; conf_file dsl])) man.
+
+(* everything the deployment checks before it creates anything *)
+Definition deploy_ok (dsl : bool) (man : list entry) : bool := validate man && conf_rule dsl man.
+
+Definition has_conf_key (man : list entry) : bool := existsb (fun e => String.eqb (fst e) "conf") man.
+
+Definition deploy_self (dsl : bool) (tgt : list string) (man : list entry) : list (list string) :=
+  ((if has_conf_key man then [] else [resolve true (mlinks tgt man) (S (length man)) (tgt ++ ["conf"])]) ++
+   [resolve false (mlinks tgt man) (S (length man)) (tgt ++ ["conf"; conf_file dsl])])%list.
+
+(* the whole deployment: nothing when the manifest is refused *)
+Definition deploy_all (dsl : bool) (tgt : list string) (man : list entry) : list (list string) :=
+  if deploy_ok dsl man then (deploy tgt man ++ deploy_self dsl tgt man)%list else [].
+
+(* case = (manifest, package file is DSL, accepted by Manifest.validate, accepted by the deployment's checks) *)
+Definition check_man2 (c : list entry * bool * bool * bool) : bool :=
+  let '(man, dsl, v, dpl) := c in Bool.eqb (validate man) v && Bool.eqb (deploy_ok dsl man) dpl.
+
+(* ---------------------------------------------------------------- working directories that already hold links *)
+(* [pre]: the symbolic links that exist before the archive is staged, (path of the link, what it points at), both
+   normalised absolute paths.  d is os.path.realpath(destination): no link is d or a directory on the way to d
+   ([real_dir]). *)
+Definition links := list (list string * list string).
+Definition real_dir (pre : links) (d : list string) : bool := forallb (fun l => negb (lprefixb (fst l) d)) pre.
+
+(* throughExistingLink(path) of the repaired code: path, or a directory between the destination (excluded) and
+   path, is a symbolic link *)
+Definition through_pre (d : list string) (pre : links) (p : list string) : bool :=
+  existsb (fun l => lprefixb d (fst l) && negb (list_eqb d (fst l)) && lprefixb (fst l) p) pre.
+
+Definition pre_member_ok (d : list string) (pre : links) (m : member) : bool :=
+  negb (through_pre d pre (snd (mpath d m))) &&
+  match snd m with
+  | KHard _ => match mtarget d m with Some tp => negb (through_pre d pre (snd tp)) | None => true end
+  | _ => true
+  end.
+
+(* the whole repaired check of StageReference *)
+Definition tar_check_pre (pre : links) (d : list string) (ms : list member) : bool :=
+  tar_check d ms && forallb (pre_member_ok d pre) ms.
+
+(* the check before the repair of F18e: os.path.realpath(path), computed before the extraction, is inside d *)
+Definition link_fuel : nat := 40.               (* links followed in one resolution (Linux: ELOOP beyond 40) *)
+Definition realpath (pre : links) (p : list string) : list string := resolve false pre link_fuel p.
+Definition pre_member_ok_old (d : list string) (pre : links) (m : member) : bool :=
+  inside_str (false, d) (false, realpath pre (snd (mpath d m))) &&
+  match snd m with
+  | KHard _ => match mtarget d m with Some tp => inside_str (false, d) (false, realpath pre (snd tp)) | None => true end
+  | _ => true
+  end.
+Definition tar_check_pre_old (pre : links) (d : list string) (ms : list member) : bool :=
+  tar_check d ms && forallb (pre_member_ok_old d pre) ms.
+
+(* extraction in a file system that has the links [pre] and gets those of the archive (a link member put on
+   top of an existing link would replace it; the repaired check refuses such archives) *)
+Definition created_pre (pre : links) (d : list string) (ms : list member) (m : member) : list string :=
+  resolve (is_sym m) (pre ++ linkmap d ms)%list link_fuel (snd (mpath d m)).
+Definition hard_targets_pre (pre : links) (d : list string) (ms : list member) : list (list string) :=
+  flat_map (fun m => match snd m with
+                     | KHard _ => match mtarget d m with
+                                  | Some tp => [resolve false (pre ++ linkmap d ms)%list link_fuel (snd tp)]
+                                  | None => []
+                                  end
+                     | _ => []
+                     end) ms.
+Definition extract_pre (pre : links) (d : list string) (ms : list member) : list (list string) :=
+  (map (created_pre pre d ms) ms ++ hard_targets_pre pre d ms)%list.
+Definition stage_extract_pre (pre : links) (d : list string) (ms : list member) : list (list string) :=
+  if tar_check_pre pre d ms then extract_pre pre d ms else [].
+
+(* case = (dest, links present before, members, accepted by the implementation's check) *)
+Definition check_tar_pre (c : list string * links * list member * bool) : bool :=
+  let '(d, pre, ms, acc) := c in Bool.eqb (tar_check_pre pre d ms) acc.
+
+(* ---------------------------------------------------------------- migrated components *)
+(* Job.stageIn of a migrated component: the working directory <stage>/<component> is removed and ONE link,
+   named by the last segment of the reference, is made in the stage directory (the parent of the working
+   directory); that link is the component's working directory from then on. *)
+Definition migrate_entry (work : list string) (src : string) : option (list string) :=
+  stage_entry (removelast work) src.
